@@ -24,16 +24,20 @@ class CirqExporter(QCircuitExporter):
         import cirq
 
         if mode == "gate":
+            # the exported gate is the circuit as it is now, not a view of _selfqc
+            qc_name = _selfqc.name
+            qc_num_qubits = _selfqc.num_qubits
+            qc_gates = list(_selfqc.gates)
 
             class ExportedGate(cirq.Gate):
                 def init(self):
                     super(ExportedGate, self)
 
                 def _num_qubits_(self):
-                    return _selfqc.num_qubits
+                    return qc_num_qubits
 
                 def _decompose_(self, qubits):
-                    for g, w, p in _selfqc.gates:
+                    for g, w, p in qc_gates:
                         g_name = g.__class__.__name__
 
                         gate_mapping = {"CX": "CNOT", "CCX": "CCNOT"}
@@ -76,9 +80,9 @@ class CirqExporter(QCircuitExporter):
                             )
 
                 def _circuit_diagram_info_(self, args):
-                    return [_selfqc.name] * self.num_qubits()
+                    return [qc_name] * self.num_qubits()
 
-            ExportedGate.__name__ = _selfqc.name
+            ExportedGate.__name__ = qc_name
             return ExportedGate
         elif mode == "circuit":
             circ = cirq.Circuit()
